@@ -142,3 +142,31 @@ def rand_complex(rng, depth, names=NAMES, maxc=3):
 
 def rand_list(rng, depth=2, names=NAMES):
     return [rand_complex(rng, depth, names) for _ in range(rng.choice([1, 1, 1, 2]))]
+
+
+def rand_extra(rng):
+    """simple selectors outside the C01/C02 core (text, language, direction, HTML state, namespaces, the type attribute, & and the
+    never-matching pseudo-classes): used where only spelling / parsing matters"""
+    r = rng.randrange(10)
+    if r == 0:
+        return {'k': 'lang', 'ranges': [cps(rng.choice(['en', 'de-DE', '*-CH', 'fr', 'x y', ''])) for _ in range(rng.choice([1, 1, 2]))]}
+    if r == 1:
+        return {'k': 'contains', 'own': rng.random() < 0.4, 'vals': [cps(rng.choice(['x', 'x y', '', 'a"b', "it's", 'z\\w'])) for _ in range(rng.choice([1, 2]))]}
+    if r == 2:
+        return {'k': 'dir', 'd': rng.choice(['ltr', 'rtl'])}
+    if r == 3:
+        return {'k': rng.choice(['checked', 'disabled', 'enabled', 'link', 'any-link', 'default', 'indeterminate', 'in-range', 'out-of-range',
+                                 'required', 'optional', 'read-only', 'read-write', 'placeholder-shown', 'defined', 'scope'])}
+    if r == 4:
+        return {'k': 'attr', 'ns': BARE, 'name': cps(rng.choice(['type', 'TYPE', 'tYpe'])), 'op': rng.choice(['eq', 'ne', 'inc', 'pre']),
+                'val': cps(rng.choice(['TEXT', 'a', 'x y'])), 'flag': rng.choice(['n', 'n', 'i', 's'])}
+    if r == 5:
+        return {'k': 'attr', 'ns': rng.choice([{'t': 'any'}, {'t': 'none'}, {'t': 'pfx', 'p': cps('ns')}]), 'name': cps('href'),
+                'op': rng.choice(['ex', 'eq']), 'val': cps('u'), 'flag': 'n'}
+    if r == 6:
+        return {'k': 'none'}
+    if r == 7:
+        return {'k': 'amp'}
+    if r == 8:
+        return {'k': 'class', 'v': cps(rng.choice(['1a', '-', '--', 'a b', '\u00e9', 'a.b', '-1', 'A']))}
+    return {'k': 'id', 'v': cps(rng.choice(['#', 'x:y', ' ', 'a\\b', '0']))}
